@@ -6,6 +6,10 @@ import Verif.Model.EAB
 
     hist v=2 K=<key>,<key>…  R=<req>|<req>…                 sequential history  (`runHist`)
     conc v=2 K=<key>,<key>…  R=<req>|<req>…  S=<digits>     schedule, digit = thread taking its next step (`runSched`)
+    prov v=2 eab= fcn= tos= web= caa= ch= fm= roots= [e2e=1]  an ACME provisioner as configured -> as served after
+                                                            the migration to the admin database (`migrate`)
+    order v=2 ext=<calls> val=<calls> new=<calls>           store calls of extractJWK / validateExternalAccountBinding / NewAccount
+                                                            in source order (go/ast) -> order:match | order:differs
 
     key := id:prov:hasSecret:bound:account              (0/1 flags; account 0 = none)
     req := prov,requireEAB,outerKey,outerUrl,payloadOk,onlyExisting,bindingParses,<binding>
@@ -15,6 +19,7 @@ import Verif.Model.EAB
   Output:  <resp>;<resp>… K=<id>:<bound><hasSecret>:a<n>,…   with
     resp := 201:a<n>:k<via> | 200:a<n> | 400:malformed | 400:externalAccountRequired | 401:unauthorized
           | 500:serverInternal | 400:accountDoesNotExist | -            (`-` = the thread has not answered)
+    a refusal is followed by `+dead` when an account exists for the request's key and is deactivated
   Account ids are renumbered in order of first appearance in the output (the real ids are random).
 -/
 open Verif Verif.EAB
@@ -71,9 +76,18 @@ def respS (seen : List Nat) : Option Resp → List Nat × String
   | some (.existing a) => let (s, n) := renum seen a; (s, s!"200:a{n}")
   | some (.created a v) => let (s, n) := renum seen a; (s, s!"201:a{n}:k{v}")
 
-def render (st : State) (rs : List (Option Resp)) : String :=
+/-- `+dead` after a refusal: an account exists for the request's key and is deactivated (the request
+    stored it and undid it, or it met one that had been undone) -/
+def deadMark (st : State) (outerKey : Nat) : Option Resp → String
+  | some (.err _) =>
+    match acctOfKey st outerKey with
+    | some a => if st.dead.contains a then "+dead" else ""
+    | none => ""
+  | _ => ""
+
+def render (st : State) (rs : List (Option Resp × Nat)) : String :=
   let (seen, outs) := rs.foldl (fun (acc : List Nat × List String) r =>
-    let (s, o) := respS acc.1 r; (s, acc.2 ++ [o])) ([], [])
+    let (s, o) := respS acc.1 r.1; (s, acc.2 ++ [o ++ deadMark st r.2 r.1])) ([], [])
   let ks := st.keys.map fun k =>
     let a := if k.account = 0 then "a0" else
       match seen.idxOf? k.account with
@@ -92,6 +106,50 @@ def eval (line : String) : Option String := do
   let fs := fields line
   if !fs.contains ("v=" ++ protocolVersion) then return "protocol-mismatch"
   let kind ← fs.head?
+  if kind = "prov" then
+    -- prov v=2 eab= fcn= tos= web= caa=<n,n|-> ch=<letters> fm=<letters> roots= [bind=0|1]
+    --   challenges: h http-01 d dns-01 t tls-alpn-01 a device-attest-01 o wire-oidc-01 p wire-dpop-01
+    --   formats:    a apple s step t tpm
+    let get := fun (k : String) => (fs.find? (·.startsWith (k ++ "="))).map fun f => (f.drop (k.length + 1)).toString
+    let b := fun (k : String) => (get k).bind bool?
+    let n := fun (k : String) => (get k).bind String.toNat?
+    let chOf := fun (c : Char) => match c with
+      | 'h' => some Challenge.http01 | 'd' => some .dns01 | 't' => some .tlsAlpn01 | 'a' => some .deviceAttest01
+      | 'o' => some .wireOidc01 | 'p' => some .wireDpop01 | _ => none
+    let fmOf := fun (c : Char) => match c with
+      | 'a' => some AttFormat.apple | 's' => some .step | 't' => some .tpm | _ => none
+    let chS := fun (c : Challenge) => match c with
+      | .http01 => "h" | .dns01 => "d" | .tlsAlpn01 => "t" | .deviceAttest01 => "a" | .wireOidc01 => "o" | .wireDpop01 => "p"
+    let fmS := fun (f : AttFormat) => match f with | .apple => "a" | .step => "s" | .tpm => "t"
+    let letters := fun (t : String) => if t = "-" then "" else t
+    let caaT ← get "caa"
+    let caa ← if caaT = "-" then some [] else (caaT.splitOn ",").mapM String.toNat?
+    let chs ← (letters (← get "ch")).toList.mapM chOf
+    let fms ← (letters (← get "fm")).toList.mapM fmOf
+    let eab ← b "eab"
+    let fcn ← b "fcn"
+    let tos ← n "tos"
+    let web ← n "web"
+    let roots ← n "roots"
+    let p : AcmeProv := ⟨eab, fcn, tos, web, caa, chs, fms, roots⟩
+    let m := migrate p
+    let dash := fun (t : String) => if t.isEmpty then "-" else t
+    let caaS := dash (",".intercalate (m.caaIdentities.map toString))
+    let chOut := dash (String.join (m.challenges.map chS))
+    let fmOut := dash (String.join (m.formats.map fmS))
+    let base := s!"eab={if m.requireEAB then 1 else 0} fcn={if m.forceCN then 1 else 0} tos={m.termsOfService} web={m.website} caa={caaS} ch={chOut} fm={fmOut} roots={m.roots}"
+    -- with e2e=1: a new-account request without a binding on the migrated authority
+    match get "e2e" with
+    | some "1" =>
+      let r : Req := ⟨1, m.requireEAB, 41, 100, true, false, none, true⟩
+      let x := (handle { keys := [], accts := [], next := 1 } r).2
+      let xs := match x with | .created _ _ => "201" | .existing _ => "200" | .err e => errS e
+      return base ++ " new-account=" ++ xs
+    | _ => return base
+  if kind = "order" then
+    let get := fun (k : String) => ((fs.find? (·.startsWith (k ++ "="))).map fun f => ((f.drop (k.length + 1)).toString.splitOn ",")).getD []
+    let ok := get "ext" == callsExtractJWK && get "val" == callsValidateEAB && get "new" == callsNewAccount
+    return (if ok then "order:match" else "order:differs")
   let kv := fs.filterMap fun f =>
     match f.splitOn "=" with
     | [k, v] => some (k, v)
@@ -103,11 +161,11 @@ def eval (line : String) : Option String := do
   match kind with
   | "hist" =>
     let (s, rs) := runHist st reqs
-    pure (render s (rs.map some))
+    pure (render s ((rs.map some).zip (reqs.map (·.outerKey))))
   | "conc" =>
     let sched ← digits (← lookup kv "S")
     let (s, ts) := runSched st (reqs.map (⟨·, .start⟩)) sched
-    pure (render s (ts.map Thread.resp))
+    pure (render s ((ts.map Thread.resp).zip (reqs.map (·.outerKey))))
   | _ => none
 
 end C20
